@@ -156,7 +156,8 @@ def soakOps (d : D) (spec : Bool) (G N R seed idBase : Nat) : D := Id.run do
       let x3 := lcg x2
       let x4 := lcg x3
       x := x4
-      let res := "s" ++ toString (x1 % R)
+      -- the first three rounds of every goroutine enter a resource nobody has entered before (`f<soak>_<round>`)
+      let res := if i < 3 then s!"f{d.soaks + 1}_{i}" else "s" ++ toString (x1 % R)
       let id := idBase + g * N + i
       let ch : Chain := if g % 2 = 0 then defaultChain d spec res (x3 % 3 + 1) [] else { pre := [.node], rules := [.pass], std := true, recs := [] }
       let e : EntryOp := { id := id, res := res, inbound := x2 % 2 = 0, batch := x3 % 3 + 1, args := [], chain := ch }
